@@ -583,6 +583,31 @@ def check_match_path_no_raise(rep, rule):
     return len(conv_calls)
 
 
+_MUTATORS = ('update', 'pop', 'popitem', 'clear', 'setdefault', 'append', 'extend', 'insert', 'remove', 'sort', 'reverse',
+             '__setitem__', '__delitem__')
+
+
+def _check_unmutated(mod, names):
+    """A folded table is only what its defining statements say: any in-place modification elsewhere in the module
+    (``T[k] = v``, ``del T[k]``, ``T.update(...)``, re-binding inside a function) is not followed."""
+    for n in ast.walk(mod.tree):
+        what = None
+        if isinstance(n, ast.Subscript) and isinstance(n.ctx, (ast.Store, ast.Del)) and isinstance(n.value, ast.Name) and n.value.id in names:
+            what = n.value.id
+        elif isinstance(n, ast.Call) and isinstance(n.func, ast.Attribute) and n.func.attr in _MUTATORS and \
+                isinstance(n.func.value, ast.Name) and n.func.value.id in names:
+            what = n.func.value.id
+        elif isinstance(n, ast.Global) and set(n.names) & set(names):
+            fn = mod.enclosing_function(n)
+            if fn is not None and any(isinstance(x, ast.Name) and x.id in names and isinstance(x.ctx, (ast.Store, ast.Del)) for x in ast.walk(fn)):
+                what = sorted(set(n.names) & set(names))[0]
+        if what is not None:
+            fn = mod.enclosing_function(n)
+            if fn is not None and what in [a.arg for a in fn.args.posonlyargs + fn.args.args + fn.args.kwonlyargs]:
+                continue        # a parameter of the same name
+            raise AnalysisError('%s is modified in place (line %s): its value cannot be folded from its definition' % (what, getattr(n, 'lineno', '?')))
+
+
 # ---- R05.a ------------------------------------------------------------------------------------------
 
 def _type_tables(rep):
@@ -591,6 +616,7 @@ def _type_tables(rep):
     route = repo.mod(ROUTE)
     if 'DEFAULT_CONVS' not in route.assigns:
         raise AnalysisError('DEFAULT_CONVS not found')
+    _check_unmutated(route, ('DEFAULT_CONVS',))
     try:
         rows = repo.fold(ast.Name(id='DEFAULT_CONVS', ctx=ast.Load()), route, sym=True)
     except Unfoldable as e:
@@ -646,6 +672,11 @@ def _type_tables(rep):
         return False
     ok = len(loops) == 1 and registers_row(loops[0]) and not loops[0].orelse and \
         not any(isinstance(x, (ast.If, ast.Break, ast.Continue, ast.Try)) for x in ast.walk(loops[0]))
+    # the table is complete when the loop runs: nothing binds DEFAULT_CONVS after it
+    if ok:
+        body = list(route.tree.body)
+        ok = not any('DEFAULT_CONVS' in names_stored(st) for st in body[body.index(loops[0]) + 1:]
+                     if not isinstance(st, (ast.FunctionDef, ast.AsyncFunctionDef, ast.ClassDef)))
     rep.check('R05.a', '%s::registration loop' % ROUTE, ok, 'every DEFAULT_CONVS entry is registered as (name, func, pattern)' if ok else
               'DEFAULT_CONVS is not registered entry by entry in order', route, loops[0] if loops else None)
     for name in PATTERN_NAMES:
@@ -748,6 +779,7 @@ def _roles(rep):
 
 def _operator_tables(rep):
     route = rep.repo.mod(ROUTE)
+    _check_unmutated(route, OP_TABLES)
     try:
         arity = route.const('_OP_ARITY_MAP')
         opt = route.const('_OP_OPTIONALITY_MAP')
